@@ -48,7 +48,7 @@ def generate(ck):
         {"cls": "single", "nx": 400, "table": {"kind": "shipped", "name": "pvt_oil_single"}, "p_i": 6000.0, "p_f": 1000.0, "alpha_branch": False, "schedule": None, "grid": {"family": "geometric", "nt": 40, "t_end": 5.0, "seed": 3}},
     ]
     for _ in range(n):
-        descs.append(sim.random_sim_desc(rng, ck.tier))
+        descs.append(sim.random_sim_desc(rng, ck.tier, twophase_share=0.08))
     return descs
 
 
@@ -101,7 +101,7 @@ def judge_steps(ck, desc, cls, res, t, pp, m_i, m_f, calls=0):
         ck.violation("one-mesh-constant", {"bracket": [lo, hi], "c_hat": r["c_hat"], "nx": nx}, desc)
     if nontrivial and lo <= hi and np.isfinite(lo) and np.isfinite(hi) and hi > 0:
         ck.note_max("widest_relative_bracket", (hi - lo) / abs(hi))
-        nominal = float(nx**2 if cls == "single" else (nx - 1) ** 2)
+        nominal = float(nx**2 if cls != "ideal" else (nx - 1) ** 2)
         ck.count("bracket_contains_nominal_1/h^2" if lo <= nominal <= hi else "bracket_excludes_nominal_1/h^2")
     return nontrivial, {"nx": nx, "nt": nt, "bracket": [lo, hi], "worst_ratio": r["worst_ratio"], "solver_calls": calls, "max_eta": sim.SOLVER["max_eta"]}
 
